@@ -539,6 +539,10 @@ class IOSupport:
 
     # TODO: use built-in function for extracting ref seq
     def check_sites_are_canonical(self, read_introns, gene_info, strand):
+        if strand not in ('+', '-'):
+            # undefined strand: the introns must be canonical with respect to one of the two strands
+            return (self.check_sites_are_canonical(read_introns, gene_info, '+') or
+                    self.check_sites_are_canonical(read_introns, gene_info, '-'))
         for intron in read_introns:
             # the answer depends on the strand, so the strand is a part of the key
             site_key = (intron, strand)
